@@ -117,7 +117,8 @@ def state_of(c, spec):
   if kind == 'axis_aligned_root':
     for bi, b in enumerate(spec['bodies']):
       if b['free']:
-        q[s['q_adr'][bi] + 3:s['q_adr'][bi] + 7] = [np.sqrt(0.5), 0.0, 0.0, np.sqrt(0.5)]
+        # alternate between a quarter turn about z and the axis-cycling rotation (z -> x), an Euler gimbal orientation
+        q[s['q_adr'][bi] + 3:s['q_adr'][bi] + 7] = [np.sqrt(0.5), 0.0, 0.0, np.sqrt(0.5)] if (bi + c['nsteps']) % 2 else [0.5, 0.5, 0.5, 0.5]
   return q, qd, ctrl
 
 
